@@ -7,7 +7,8 @@ Decides (structure only):
  Q2 a predicate over directory components of the linted file's path (substring on str(path), membership in
     path.parts, fnmatch, startswith) is applied to a value derived from relative_to(<project root>); right-anchored
     Path.match and tests on path.name/suffix are location independent and accepted;
- Q3 the orchestrator hands its own project_root to the ignore parser and to the rules (_project_root).
+ Q3 the orchestrator hands its own project_root to the ignore parser and to the rules (_project_root);
+ Q4 tables keyed by a file path are written and read under the same canonicalisation.
 Not decided: the decisions fnmatch/glob patterns make.
 """
 
@@ -112,6 +113,51 @@ def check(run, ctx):
         else:
             run.finding(Q2, sym, f"absolute-path-predicate:{norm(hits[0])}", f"{f.qual}: `{norm(hits[0])}` inspects the file path as spelled by the caller (absolute when the target was absolute), so directory names leading to the project decide the verdict", f.loc)
     run.require(n_sites >= 15, f"only {n_sites} path-predicate functions found")
+
+    Q4 = run.rule("Q4", "path-keyed tables: the key written and the key looked up go through the same canonicalisation (resolve/absolute/relative_to/...)", floor=3,
+                  decides="what is recorded for a file under one spelling is found again under the spelling the lookup uses")
+    CANON = {"resolve", "absolute", "relative_to", "as_posix", "lower", "normpath", "realpath", "abspath", "expanduser", "casefold", "normcase"}
+
+    def canon(f, e):
+        out = {call_name(x) for x in ast.walk(e) if isinstance(x, ast.Call) and call_name(x) in CANON}
+        for nm in {x.id for x in ast.walk(e) if isinstance(x, ast.Name)}:
+            for a in ast.walk(f.node):
+                if isinstance(a, ast.Assign) and any(isinstance(t, ast.Name) and t.id == nm for t in a.targets):
+                    out |= {call_name(x) for x in ast.walk(a.value) if isinstance(x, ast.Call) and call_name(x) in CANON}
+        return out
+
+    for cq, c in sorted(repo.classes.items()):
+        if not cq.startswith("src."):
+            continue
+        stores, reads = {}, {}
+        for m in c.methods.values():
+            for n in ast.walk(m.node):
+                if isinstance(n, ast.Assign):
+                    for t in n.targets:
+                        if isinstance(t, ast.Subscript) and isinstance(t.value, ast.Attribute) and isinstance(t.value.value, ast.Name) and t.value.value.id == "self":
+                            stores.setdefault(t.value.attr, []).append((m, t.slice))
+                if isinstance(n, ast.Subscript) and isinstance(n.ctx, ast.Load) and isinstance(n.value, ast.Attribute) and isinstance(n.value.value, ast.Name) and n.value.value.id == "self":
+                    reads.setdefault(n.value.attr, []).append((m, n.slice))
+                if isinstance(n, ast.Call) and isinstance(n.func, ast.Attribute) and n.func.attr in ("get", "pop") and isinstance(n.func.value, ast.Attribute) and isinstance(n.func.value.value, ast.Name) and n.func.value.value.id == "self" and n.args:
+                    reads.setdefault(n.func.value.attr, []).append((m, n.args[0]))
+                if isinstance(n, ast.Compare) and isinstance(n.ops[0], (ast.In, ast.NotIn)) and isinstance(n.comparators[0], ast.Attribute) and isinstance(n.comparators[0].value, ast.Name) and n.comparators[0].value.id == "self":
+                    reads.setdefault(n.comparators[0].attr, []).append((m, n.left))
+        for attr, sts in stores.items():
+            if not any("path" in ast.unparse(k).lower() or "file" in ast.unparse(k).lower() for _, k in sts):
+                continue
+            sym = f"{cq.replace('src.', '', 1)}.{attr}"
+            wk = set()
+            for m, k in sts:
+                wk |= canon(m, k)
+            bad = None
+            for m, k in reads.get(attr, []):
+                rk = canon(m, k)
+                if rk != wk:
+                    bad = (m, k, rk)
+            if bad:
+                run.finding(Q4, sym, f"key-canonicalisation:{sorted(wk)}!={sorted(bad[2])}", f"{sym} is written under a key canonicalised with {sorted(wk) or 'nothing'} but {bad[0].name} looks it up with {norm(bad[1])} ({sorted(bad[2]) or 'nothing'}): entries recorded for a relatively spelled (or symlinked) file are not found", c.loc)
+            else:
+                run.ok(Q4, sym, f"writer and {len(reads.get(attr, []))} reader(s) use the same key form {sorted(wk) or '(as spelled)'}")
     return __doc__
 
 
